@@ -46,3 +46,35 @@ META["C11"] = dict(
         "dict-valued leaves are opaque values in L1; only L2 addresses through them",
     ],
 )
+
+META["C16"] = dict(
+    title="Classes are instantiated in an order compatible with every link",
+    level="exploration",
+    level_text="Exhaustive runtime check of the real DirectedGraph on every digraph with <=4 nodes incl. self-loops (quick) and "
+    "5 nodes without self-loops (thorough), 3 edge-insertion orders each, judged by an independent cycle test and order "
+    "validator (icontract postcondition + boundary check); plus generated acyclic link graphs over 2-4 class groups / subclass "
+    "arguments through real parsers with recording constructors (order, exactly-once, argument identity, cycle refusal).",
+    level_note="Trusted: the independent graph oracle (30 lines) and the recording classes. End-to-end link graphs are sampled "
+    "(random DAGs, declaration orders, name-prefix collisions, multi-source links, a failing instantiate before the judged one).",
+    shards=g(4, 16),
+    budget=g(40, 240),
+    technique="exhaustive small-graph enumeration against an independent topological-order/cycle oracle (contract on the real "
+    "function) + constructor call-log monitor on end-to-end link graphs",
+    rule="Part A: a case is a digraph (edge subset) x insertion-order variant, distinct by edge set; all non-empty edge subsets are "
+    "enumerated. Part B: a case is (component kinds, DAG, declaration order, link specs), distinct by that tuple; every case "
+    "has >=1 link so all are non-trivial.",
+    gates={
+        "mon.graph.evaluations": g(150000, 2000000),
+        "ev.graph.cyclic_reported": g(50000, 500000),
+        "ev.graph.ordered": g(1000, 10000),
+        "mon.contract.topological_order": g(1000, 10000),
+        "mon.e2e.instantiations": g(150, 1500),
+        "mon.e2e.edges_checked": g(300, 3000),
+        "mon.e2e.cycle_probes": g(100, 1000),
+    },
+    exhaustive_key="graphs_exhaustive_complete",
+    assumptions=[
+        "node numbering inside DirectedGraph depends only on edge insertion order (3 orders per graph are tried)",
+        "end-to-end link graphs are sampled, not enumerated",
+    ],
+)
